@@ -57,3 +57,53 @@ package keeper
 //@   panics never
 //@ loop 1 of ForEachStorage
 //@   invariant iterator != nil && fresh(payload(iterator)) && itKv(payload(iterator)) == kvId(layer(ctx), payload(k.storeKey)) && itPrefix(payload(iterator)) == evmStoragePrefixB(addr) && itPos[payload(iterator)] == 0 && !anyState
+
+// ---------------------------------------------------------------------------------------------
+// statedb.go — the three writers genesis import uses, VERIFIED against the raw module store: each changes EXACTLY one key.
+// (The logging at the end of SetState / SetCode is dropped, DESIGN.md §3.9.)
+// ---------------------------------------------------------------------------------------------
+// SetCodeHash: an empty code hash (zero or keccak256 of nothing) DELETES the index entry, any other is stored as its 32 bytes.
+//@ func (k *Keeper) SetCodeHash(ctx sdk.Context, addr common.Address, codeHash common.Hash)
+//@   requires k != nil && k.storeKey != nil
+//@   modifies kvHas[kvId(layer(ctx), payload(k.storeKey))], kvVal[kvId(layer(ctx), payload(k.storeKey))]
+//@   ensures[C18.evm_set_code_hash_index] kvHas[kvId(layer(ctx), payload(k.storeKey))] == old(kvHas[kvId(layer(ctx), payload(k.storeKey))])[evmCodeHashKeyB(addr) := !isEmptyCodeHash(codeHash)]
+//@   ensures[C18.evm_set_code_hash_value] kvVal[kvId(layer(ctx), payload(k.storeKey))] == (isEmptyCodeHash(codeHash) ? old(kvVal[kvId(layer(ctx), payload(k.storeKey))]) : old(kvVal[kvId(layer(ctx), payload(k.storeKey))])[evmCodeHashKeyB(addr) := hashBytes(codeHash)])
+//@   panics never
+
+// SetCode: empty code DELETES the record under [1] ++ codeHash, any other code is stored there.
+//@ func (k *Keeper) SetCode(ctx sdk.Context, codeHash []byte, code []byte)
+//@   requires k != nil && k.storeKey != nil
+//@   modifies kvHas[kvId(layer(ctx), payload(k.storeKey))], kvVal[kvId(layer(ctx), payload(k.storeKey))]
+//@   ensures[C18.evm_set_code_index] kvHas[kvId(layer(ctx), payload(k.storeKey))] == old(kvHas[kvId(layer(ctx), payload(k.storeKey))])[bcat(b1(1), bytes(codeHash)) := (len(code) != 0)]
+//@   ensures[C18.evm_set_code_value] kvVal[kvId(layer(ctx), payload(k.storeKey))] == (len(code) == 0 ? old(kvVal[kvId(layer(ctx), payload(k.storeKey))]) : old(kvVal[kvId(layer(ctx), payload(k.storeKey))])[bcat(b1(1), bytes(codeHash)) := bytes(code)])
+//@   panics[C18.evm_set_code_panics] only_if (len(code) == 0 && codeHash == nil) || (len(code) != 0 && len(codeHash) == 0)
+
+// SetState: an EMPTY value deletes the slot record; any other value (in particular the 32 zero bytes of a zero hash, which
+// is what the StateDB and InitGenesis pass: common.Hash.Bytes() is never empty) is stored under [2] ++ address ++ slot.
+//@ func (k *Keeper) SetState(ctx sdk.Context, addr common.Address, key common.Hash, value []byte)
+//@   requires k != nil && k.storeKey != nil
+//@   modifies kvHas[kvId(layer(ctx), payload(k.storeKey))], kvVal[kvId(layer(ctx), payload(k.storeKey))]
+//@   ensures[C18.evm_set_state_index] kvHas[kvId(layer(ctx), payload(k.storeKey))] == old(kvHas[kvId(layer(ctx), payload(k.storeKey))])[evmStateKeyB(addr, key) := (len(value) != 0)]
+//@   ensures[C18.evm_set_state_value] kvVal[kvId(layer(ctx), payload(k.storeKey))] == (len(value) == 0 ? old(kvVal[kvId(layer(ctx), payload(k.storeKey))]) : old(kvVal[kvId(layer(ctx), payload(k.storeKey))])[evmStateKeyB(addr, key) := bytes(value)])
+//@   panics never
+
+// ---------------------------------------------------------------------------------------------
+// keeper.go WithChainID / params.go SetParams — TRUSTED summaries (assumed; bodies not verified here) used by InitGenesis:
+// WithChainID (keeper.go:106-114) parses ctx.ChainID() and calls SetEip155ChainId (params.go:42-50), whose only store
+// access is store.Set(KeyEip155ChainId = [6], 8 bytes): exactly that key is (over)written; it panics on a malformed chain
+// id. SetParams (params.go:20-33) validates, marshals and does store.Set(KeyPrefixParams = [3], bz): on success exactly
+// that key is (over)written, on an error nothing is. Neither deletes anything.
+// ---------------------------------------------------------------------------------------------
+//@ func (k Keeper) WithChainID(ctx sdk.Context)
+//@   assumed
+//@   modifies kvHas[kvId(layer(ctx), payload(k.storeKey))], kvVal[kvId(layer(ctx), payload(k.storeKey))]
+//@   ensures kvHas[kvId(layer(ctx), payload(k.storeKey))] == old(kvHas[kvId(layer(ctx), payload(k.storeKey))])[b1(6) := true]
+//@   ensures forall key bytes :: key != b1(6) ==> kvVal[kvId(layer(ctx), payload(k.storeKey))][key] == old(kvVal[kvId(layer(ctx), payload(k.storeKey))][key])
+//@   panics any
+//@ func (k Keeper) SetParams(ctx sdk.Context, params evmtypes.Params) (err error)
+//@   assumed
+//@   modifies kvHas[kvId(layer(ctx), payload(k.storeKey))], kvVal[kvId(layer(ctx), payload(k.storeKey))]
+//@   ensures err != nil ==> (kvHas[kvId(layer(ctx), payload(k.storeKey))] == old(kvHas[kvId(layer(ctx), payload(k.storeKey))]) && kvVal[kvId(layer(ctx), payload(k.storeKey))] == old(kvVal[kvId(layer(ctx), payload(k.storeKey))]))
+//@   ensures err == nil ==> kvHas[kvId(layer(ctx), payload(k.storeKey))] == old(kvHas[kvId(layer(ctx), payload(k.storeKey))])[b1(3) := true]
+//@   ensures err == nil ==> (forall key bytes :: key != b1(3) ==> kvVal[kvId(layer(ctx), payload(k.storeKey))][key] == old(kvVal[kvId(layer(ctx), payload(k.storeKey))][key]))
+//@   panics never
